@@ -66,7 +66,7 @@ func opReduce(w *World, st *Step) execResult {
 	}
 	axes := decodeInts(a[1])
 	t := w.T(st.Op.H)
-	along := append([]int{}, axes...)
+	along := w.own("reduction axes", axes)
 	var r tensor.Tensor
 	var err error
 	switch f {
